@@ -11,7 +11,18 @@ def ilog2(v):
 
 
 def cases(tier):
+    import props.c04 as c04, props.c08 as c08
     out = []
+    # the relation must hold AT THE FIAT-SHAMIR CHALLENGES: every challenge hashes everything sent before it (shared with C04) ...
+    for c in c04.cases(tier):
+        if c['kind'] == 'verifier' and 'promises at' not in c['name']:
+            out.append(dict(c, kind='c04'))
+    # ... and in a batch every member's relation enters with its own non-zero weight (shared with C08)
+    for c in c08.cases(tier):
+        if c['kind'] == 'adversarial':
+            out.append(dict(c, kind='c08'))
+        elif c['kind'] == 'cancel' and 'members 0,1' in c['name']:
+            out.append(dict(c, kind='c08cancel'))
     for (n, m, cap, x) in lattice(tier):
         if n * m < 2:
             continue   # a proof with zero rounds cannot be decoded from bytes (C15); (1,1) is covered through the prover in C01
@@ -50,6 +61,12 @@ def cases(tier):
 
 def analyse(ctx, case, run, S):
     cfg = case['cfg']
+    if case['kind'] == 'c04':
+        import props.c04 as c04
+        return c04.analyse(ctx, dict(case, kind='verifier'), run, S)
+    if case['kind'] in ('c08', 'c08cancel'):
+        import props.c08 as c08
+        return c08.analyse(ctx, dict(case, kind='adversarial' if case['kind'] == 'c08' else 'cancel'), run, S)
     if 'error' in run.out:
         raise Inconclusive('scenario error: %s' % run.out['error'])
     info = run.out['members'][-1] if run.out['members'] else None
